@@ -208,7 +208,7 @@ def run(shard, tier, seed):
     @hypothesis.seed(env.subseed(seed, ID, shard["i"]))
     @settings(max_examples=n, deadline=None, database=None, suppress_health_check=list(hypothesis.HealthCheck),
               phases=[hypothesis.Phase.generate])
-    @given(st.randoms(use_true_random=False), st.sampled_from(chainexec.CFGS), st.one_of(st.integers(3, 6), st.integers(7, 14 if tier == "quick" else 24)))
+    @given(st.randoms(use_true_random=True), st.sampled_from(chainexec.CFGS), st.one_of(st.integers(3, 6), st.integers(7, 14 if tier == "quick" else 24)))
     def prop(rnd, cfg, nb):
         case = chainexec.gen_case(rnd, cfg, nb, 0.0, ["C01"], p_fork=0.6, p_copy=0.25, p_same_cb=0.1, p_tx=0.75)
         c, fails = execute(case, rnd)
